@@ -95,6 +95,12 @@ def gen_case(rng):
     # ErrorRate costs (fp, fn), both <= 1 so that errors stay in [0,1] (hypothesis of C08.saddle_violation)
     case["costs"] = rng.choice([None, None, ["1", "1/2"], ["1/2", "1"], ["1", "1/4"], ["1/4", "1"], ["0", "1"], ["1", "0"]])
     case["hs"] = [[rng.randint(0, 1) for _ in rows] for _ in range(2)]
+    # a nearly constant predictor (1 everywhere but on one or two rows): small gamma, so that the ratio bounds
+    # r(r mu - eps*)/(mu + eps*) are POSITIVE and the ratio relations are not vacuous
+    near = [1] * len(rows)
+    for _ in range(rng.choice([1, 1, 2])):
+        near[rng.randrange(len(rows))] = 0
+    case["hs"].append(near)
     case["direct_ratio"] = rng.choice([None, "1/2", "3/4", "9/10"])
     case["hard"] = gen_hard(rng)
     return case
@@ -337,14 +343,22 @@ def check_grid(case, stats):
     cw = F(case["cw"])
     probs = []
     # direct stream: two random hard predictors against the other moments (difference and ratio form), and the objective
+    n = len(case["y"])
+    others = [m for m in MOMENTS if m != case["moment"]]
     for j, h in enumerate(case.get("hs", [])):
-        others = [m for m in MOMENTS if m != case["moment"]]
-        for m in ([others[(j + len(case["y"])) % len(others)], "erp"] if j == 0 else [others[(j + len(case["x"]) + 1) % len(others)]]):
-            rt = case.get("direct_ratio") if (j == 1 and m != "erp") else None
+        if j == 0:
+            todo = [(others[n % len(others)], None), ("erp", None)]
+        elif j == 1:
+            m = others[(n + 1) % len(others)]
+            todo = [(m, case.get("direct_ratio") if m != "erp" else None)]
+        else:
+            todo = [(["dp", "tpr", "fpr", "eo"][(n + j) % 4], case.get("direct_ratio") or "3/4")]
+        for m, rt in todo:
             pr, _ = check_constraint_vs_metric(case, h, m, rt, tag=f"direct predictor {j}", stats=stats)
             probs += pr
             stats[f"direct:{m}{'/ratio' if rt else ''}{'/cf' if case.get('cf') else ''}"] += 1
-        probs += check_objective(case, h, case.get("costs"), tag=f"direct predictor {j}")
+        if j < 2:
+            probs += check_objective(case, h, case.get("costs"), tag=f"direct predictor {j}")
     if probs:
         return probs
     gs = red.GridSearch(ExactLearner(case["kind"]), mk_moment(case["moment"], case["eps"], ratio),
@@ -569,6 +583,7 @@ def main():
             with open(path, "w") as f:
                 json.dump({"relation": rel, "message": msg, "case": case}, f, indent=1)
             print(f"VIOLATION property=X1 relation={rel} replay={path} :: {msg}")
+        print("crosscheck: counterexamples per relation: " + json.dumps(Counter(rel for rel, _, _ in failures), sort_keys=True))
         print(f"crosscheck: {len(failures)} counterexample(s) in {a.cases} cases")
         sys.exit(1)
     print(f"crosscheck: OK, {a.cases} cases, seed {a.seed}, no counterexample")
